@@ -113,7 +113,7 @@ fn family_fft(s: &mut Src, tier: Tier) -> (String, Vec<(String, String)>) {
     type B = <vfield::F64 as FSpec>::B;
     type Q = vfield::Q<B>;
     let max = if tier == Tier::Thorough { 16 } else { 14 };
-    let log_n = s.pick_copy(&[8u32, 9, 10, 10, 11, 12, max]);
+    let log_n = s.pick_copy(&[4u32, 6, 7, 8, 9, 10, 10, 11, 12, max]);
     let n = 1usize << log_n;
     let blowup = 1usize << s.range(0, 3);
     let mut mix = Mix(s.u64());
@@ -284,7 +284,11 @@ fn emit(seed: u64, tier: Tier, only: Option<(String, usize)>) {
                 }
             }
             let mut s = Src::new(v);
-            let (desc, kv) = f(&mut s, tier);
+            // a panic under one build / thread count is an output like any other (it differs from the serial run)
+            let (desc, kv) = match catch(|| f(&mut s, tier)) {
+                Ok(r) => r,
+                Err(pn) => (format!("{name} case {i}"), vec![("panic".to_string(), pn.key().replace([';', '=', '\t'], " "))]),
+            };
             let body: Vec<String> = kv.iter().map(|(k, v)| format!("{k}={v}")).collect();
             println!("{name}#{i}\t{desc}\t{}", body.join(";"));
         }
@@ -341,7 +345,8 @@ fn driver(ex: &mut Ex) {
             return;
         },
     };
-    let thread_counts: Vec<usize> = if tier == Tier::Thorough { (1..=16).collect() } else { vec![1, 2, 3, 4, 5, 7, 8, 12, 16] };
+    // counts above the number of cores are legal pool sizes (RAYON_NUM_THREADS) and exercise partitions smaller than the data
+    let thread_counts: Vec<usize> = if tier == Tier::Thorough { (1..=16).chain([24, 33, 64, 100, 128, 300]).collect() } else { vec![1, 2, 3, 4, 5, 7, 8, 12, 16, 33, 128] };
     let repeats = if tier == Tier::Thorough { 2 } else { 1 };
     let mut variants: Vec<(String, BTreeMap<String, (String, BTreeMap<String, String>)>)> = vec![];
     match run_variant(&asy, seed, tier, None, &only) {
@@ -428,7 +433,7 @@ fn main() {
     let c06 = Prop {
         id: "C06",
         level: "exploration",
-        rule: "case = one generated input of a family (proof: GenAir instance + options with LDE sizes 2^7..2^15 around the 1024 and 8192 thresholds, grinding 0 or 8; fft: sizes 256..2^14; batch: lengths around 1024, 8*1024, 16*1024; merkle: 512..2^13 leaves; matrix: 1..120 columns; tables: fragments of every length) x one build variant (async; concurrent with RAYON_NUM_THREADS in {1,2,3,4,5,7,8,12,16}, thorough: 1..16 twice). The same case list is regenerated in every build from the same proptest strategy and ChaCha seed. Oracle: digests of the outputs equal the serial build's: for proofs the context, commitments and OOD frame always, the whole proof whenever the nonce is equal, and every proof verifies; for the other families every output. Non-trivial = some parallel path is active (proof LDE >= 1024; all other families are sized to cross their thresholds); distinct = (case, variant).",
+        rule: "case = one generated input of a family (proof: GenAir instance + options with LDE sizes 2^7..2^15 around the 1024 and 8192 thresholds, grinding 0 or 8; fft: sizes 256..2^14; batch: lengths around 1024, 8*1024, 16*1024; merkle: 512..2^13 leaves; matrix: 1..120 columns; tables: fragments of every length) x one build variant (async; concurrent with RAYON_NUM_THREADS in {1,2,3,4,5,7,8,12,16,33,128}, thorough: 1..16 and {24,33,64,100,128,300} twice). The same case list is regenerated in every build from the same proptest strategy and ChaCha seed. Oracle: digests of the outputs equal the serial build's: for proofs the context, commitments and OOD frame always, the whole proof whenever the nonce is equal, and every proof verifies; for the other families every output. Non-trivial = some parallel path is active (proof LDE >= 1024; all other families are sized to cross their thresholds); distinct = (case, variant).",
         assumptions: vec![
             "thread schedules are explored by thread count, repeated runs and data sizes around the chunking thresholds; an interleaving-dependent race that does not depend on the partitioning would need a schedule-owning tool and is out of reach of this family (DESIGN.md section 7)",
             "the async variant is driven by a block_on with a no-op waker: the prover never actually suspends",
@@ -452,8 +457,8 @@ fn main() {
     };
     let props = vec![
         c06,
-        stage("C12", "fft", vec!["family:fft"], "thread clause of C12: generated FFT inputs (sizes 256..2^14 across the 1024-element concurrency threshold, odd and even log sizes, base and extension coefficients) evaluated / interpolated by the serial build and by the concurrent build under RAYON_NUM_THREADS in {1,2,3,4,5,7,8,12,16} (thorough: 1..16 twice): digests of every output must be equal. Non-trivial = every case (sizes chosen to reach the parallel path); distinct = (case, variant)."),
-        stage("C14", "batch", vec!["family:batch"], "thread clause of C14: batch_inversion, get_power_series(_with_offset), add_in_place, mul_acc on lengths around 1024, 8*1024, 16*1024 and lengths not divisible by the thread count, serial build vs concurrent build under RAYON_NUM_THREADS in {1,2,3,4,5,7,8,12,16}: digests of every output equal."),
+        stage("C12", "fft", vec!["family:fft"], "thread clause of C12: generated FFT inputs (sizes 16..2^14 across the 1024-element concurrency threshold, odd and even log sizes, base and extension coefficients) evaluated / interpolated by the serial build and by the concurrent build under RAYON_NUM_THREADS in {1,2,3,4,5,7,8,12,16,33,128} (thorough: 1..16 and {24,33,64,100,128,300}, twice): digests of every output must be equal. Non-trivial = every case (sizes chosen to reach the parallel path); distinct = (case, variant)."),
+        stage("C14", "batch", vec!["family:batch"], "thread clause of C14: batch_inversion, get_power_series(_with_offset), add_in_place, mul_acc on lengths around 1024, 8*1024, 16*1024 and lengths not divisible by the thread count, serial build vs concurrent build under RAYON_NUM_THREADS in {1,2,3,4,5,7,8,12,16,33,128}: digests of every output equal."),
         stage("C18", "merkle", vec!["family:merkle"], "thread clause of C18: Merkle trees of 512..2^13 leaves built by the serial and the concurrent build under every thread count: identical roots, nodes and openings."),
         stage("C28", "matrix,tables", vec!["family:matrix", "family:tables"], "thread clause of C28: LDE row matrices (1..120 columns), row commitments and trace-table fills built by the serial and the concurrent build under every thread count: identical digests."),
     ];
